@@ -9,7 +9,7 @@ open SoyVerif SoyVerif.Model
 
 /-! ### lexIdent -/
 
-theorem lexIdentRest_sat {n : Int} {l0 l : Lexer} {ty : ItemType} (hn : l.len = n) (h0 : 0 ≤ l.start)
+theorem lexIdentRest_sat {n : Int} {l0 l : Lexer} {ty : ItemType} (hn : l.len = n ∧ (l.mp : Int) ≤ n ∧ 0 ≤ l.tagStart ∧ l.tagStart ≤ n) (h0 : 0 ≤ l.start)
     (h1 : l.start ≤ l0.pos) (h2 : l.pos ≤ n) (hle : l0.pos ≤ l.pos) (hadv : l0.pos < n → l0.pos < l.pos) :
     Sat (lexIdentRest l ty) (Post n .ident l0) := by
   unfold lexIdentRest
@@ -33,7 +33,7 @@ theorem lexIdentRest_sat {n : Int} {l0 l : Lexer} {ty : ItemType} (hn : l.len = 
     · apply Sat.bind
       apply sliceOf_sat (by lx) (by lx) (by lx)
       intro _ _
-      first | exact errorf_sat | exact errorfAt_sat
+      first | exact errorf_sat (by lx) | exact errorfAt_sat (by lx)
     · unfold emitInside
       apply Sat.bind
       em l2 hl2 hp2 hs2 hw2
@@ -53,7 +53,7 @@ theorem lexIdent_ok {n : Int} {l : Lexer} (hg : Good n l) :
     intro p l2 hl2 hs2 hp2 hf2
     dsimp only
     split
-    · first | exact errorf_sat | exact errorfAt_sat
+    · first | exact errorf_sat (by lx) | exact errorfAt_sat (by lx)
     · exact lexIdentRest_sat (by lx) (by lx) (by lx) (by lx) (by lx) (by lx)
   split
   · exact lexIdentRest_sat (by lx) (by lx) (by lx) (by lx) (by lx) (by lx)
@@ -62,7 +62,7 @@ theorem lexIdent_ok {n : Int} {l : Lexer} (hg : Good n l) :
   split
   · nx dot l2 hl2 hs2 hf2
     split
-    · first | exact errorf_sat | exact errorfAt_sat
+    · first | exact errorf_sat (by lx) | exact errorfAt_sat (by lx)
     · nx d l3 hl3 hs3 hf3
       exact lexIdentRest_sat (by lx) (by lx) (by lx) (by lx) (by lx) (by lx)
   · exact lexIdentRest_sat (by lx) (by lx) (by lx) (by lx) (by lx) (by lx)
@@ -70,14 +70,14 @@ theorem lexIdent_ok {n : Int} {l : Lexer} (hg : Good n l) :
 /-! ### `∃`-forms of the primitive rules, for the loops defined by `match h : … with` -/
 
 theorem next_ex {l : Lexer} (h0 : 0 ≤ l.pos) :
-    ∃ r l', l.next = some (r, l') ∧ l'.len = l.len ∧ l'.start = l.start ∧ NextFacts l r l' := by
-  obtain ⟨⟨r, l'⟩, h, f⟩ := next_sat (Q := fun x => x.2.len = l.len ∧ x.2.start = l.start ∧ NextFacts l x.1 x.2)
+    ∃ r l', l.next = some (r, l') ∧ (l'.len = l.len ∧ l'.mp = l.mp ∧ l'.tagStart = l.tagStart) ∧ l'.start = l.start ∧ NextFacts l r l' := by
+  obtain ⟨⟨r, l'⟩, h, f⟩ := next_sat (Q := fun x => (x.2.len = l.len ∧ x.2.mp = l.mp ∧ x.2.tagStart = l.tagStart) ∧ x.2.start = l.start ∧ NextFacts l x.1 x.2)
     h0 (fun _ _ a b c => ⟨a, b, c⟩)
   exact ⟨r, l', h, f⟩
 
 /-- facts about a `next` whose result is already known (after `split` on `match h : l.next with`) -/
 theorem next_facts {l l' : Lexer} {r : Int} (h : l.next = some (r, l')) (h0 : 0 ≤ l.pos) :
-    l'.len = l.len ∧ l'.start = l.start ∧ NextFacts l r l' := by
+    (l'.len = l.len ∧ l'.mp = l.mp ∧ l'.tagStart = l.tagStart) ∧ l'.start = l.start ∧ NextFacts l r l' := by
   obtain ⟨r2, l2, h2, f⟩ := next_ex h0
   rw [h] at h2
   simp only [Option.some.injEq, Prod.mk.injEq] at h2
@@ -85,18 +85,20 @@ theorem next_facts {l l' : Lexer} {r : Int} (h : l.next = some (r, l')) (h0 : 0 
   exact f
 
 theorem emit_ex {l : Lexer} (t : ItemType) (h0 : 0 ≤ l.start) (h1 : l.start ≤ l.pos) (h2 : l.pos ≤ l.len) :
-    ∃ l', l.emit t = some l' ∧ l'.len = l.len ∧ l'.pos = l.pos ∧ l'.start = l.pos ∧ l'.width = l.width :=
+    ∃ l', l.emit t = some l' ∧ (l'.len = l.len ∧ l.mp ≤ l'.mp ∧ ((l'.mp : Int) = l.mp ∨ (l'.mp : Int) = l.pos) ∧ l'.tagStart = l.tagStart) ∧
+      l'.pos = l.pos ∧ l'.start = l.pos ∧ l'.width = l.width :=
   emit_sat h0 h1 h2 (fun _ a b c d => ⟨a, b, c, d⟩)
 
 theorem maybeEmitText_ex {l : Lexer} {k : Int} (hs0 : 0 ≤ l.start) (hk : 0 ≤ k) (hp : l.pos - k ≤ l.len) :
-    ∃ l', maybeEmitText l k = some l' ∧ l'.len = l.len ∧ l'.pos = l.pos ∧ l'.width = l.width ∧
+    ∃ l', maybeEmitText l k = some l' ∧ (l'.len = l.len ∧ l.mp ≤ l'.mp ∧ ((l'.mp : Int) = l.mp ∨ (l'.mp : Int) = l.pos - k) ∧ l'.tagStart = l.tagStart) ∧
+      l'.pos = l.pos ∧ l'.width = l.width ∧
       (l'.start = l.start ∨ (l.start < l.pos - k ∧ l'.start = l.pos - k)) :=
   maybeEmitText_sat hs0 hk hp (fun _ a b c d => ⟨a, b, c, d⟩)
 
 /-! ### stringLexer -/
 
 theorem lexString_sat {n : Int} {l0 : Lexer} (q : Int) : ∀ (k : Nat) (l : Lexer), l.rem = k →
-    l.len = n → 0 ≤ l.start → l.start ≤ l.pos → l.pos ≤ n → l0.pos ≤ l.pos →
+    (l.len = n ∧ (l.mp : Int) ≤ n ∧ 0 ≤ l.tagStart ∧ l.tagStart ≤ n) → 0 ≤ l.start → l.start ≤ l.pos → l.pos ≤ n → l0.pos ≤ l.pos →
     Sat (lexString q l) (Post n (.str q) l0) := by
   intro k
   induction k using Nat.strongRecOn with
@@ -111,7 +113,7 @@ theorem lexString_sat {n : Int} {l0 : Lexer} (q : Int) : ∀ (k : Nat) (l : Lexe
       obtain ⟨hl1, hs1, hf1⟩ := next_facts hnx (by lx)
       unfold NextFacts at hf1
       split
-      · first | exact errorf_sat | exact errorfAt_sat
+      · first | exact errorf_sat (by lx) | exact errorfAt_sat (by lx)
       split
       · split
         · rename_i heq
@@ -138,10 +140,10 @@ theorem lexString_ok {n : Int} {l : Lexer} {q : Int} (hg : Good n l) :
 
 /-- what `scanNumber` and its parts return, relative to the lexer `l0` at its start -/
 def NumPost (n : Int) (l0 : Lexer) (adv : Bool) (res : ItemType × Bool × Lexer) : Prop :=
-  res.2.2.len = n ∧ res.2.2.start = l0.start ∧ l0.pos ≤ res.2.2.pos ∧ res.2.2.pos ≤ n ∧
+  (res.2.2.len = n ∧ (res.2.2.mp : Int) ≤ n ∧ 0 ≤ res.2.2.tagStart ∧ res.2.2.tagStart ≤ n) ∧ res.2.2.start = l0.start ∧ l0.pos ≤ res.2.2.pos ∧ res.2.2.pos ≤ n ∧
     (adv = true ∨ res.2.1 = false ∨ l0.pos < res.2.2.pos)
 
-theorem scanNumberEnd_sat {n : Int} {l0 l : Lexer} {typ : ItemType} {adv : Bool} (hn : l.len = n)
+theorem scanNumberEnd_sat {n : Int} {l0 l : Lexer} {typ : ItemType} {adv : Bool} (hn : l.len = n ∧ (l.mp : Int) ≤ n ∧ 0 ≤ l.tagStart ∧ l.tagStart ≤ n)
     (hs : l.start = l0.start) (h0 : 0 ≤ l0.pos) (hle : l0.pos ≤ l.pos) (h2 : l.pos ≤ n)
     (hadv : adv = true ∨ l0.pos < l.pos) :
     Sat (scanNumberEnd l typ) (NumPost n l0 adv) := by
@@ -164,7 +166,7 @@ theorem scanNumberEnd_sat {n : Int} {l0 l : Lexer} {typ : ItemType} {adv : Bool}
     · exact Or.inl h
     · exact Or.inr (Or.inr (by lx))
 
-theorem scanNumberExp_sat {n : Int} {l0 l : Lexer} {typ : ItemType} {adv : Bool} (hn : l.len = n)
+theorem scanNumberExp_sat {n : Int} {l0 l : Lexer} {typ : ItemType} {adv : Bool} (hn : l.len = n ∧ (l.mp : Int) ≤ n ∧ 0 ≤ l.tagStart ∧ l.tagStart ≤ n)
     (hs : l.start = l0.start) (h0 : 0 ≤ l0.pos) (hle : l0.pos ≤ l.pos) (h2 : l.pos ≤ n)
     (hadv : adv = true ∨ l0.pos < l.pos) :
     Sat (scanNumberExp l typ) (NumPost n l0 adv) := by
@@ -196,7 +198,7 @@ theorem scanNumberExp_sat {n : Int} {l0 l : Lexer} {typ : ItemType} {adv : Bool}
     · exact Or.inl h
     · exact Or.inr (by lx)
 
-theorem NumPost.fail {n : Int} {l0 l : Lexer} {typ : ItemType} (hn : l.len = n)
+theorem NumPost.fail {n : Int} {l0 l : Lexer} {typ : ItemType} (hn : l.len = n ∧ (l.mp : Int) ≤ n ∧ 0 ≤ l.tagStart ∧ l.tagStart ≤ n)
     (hs : l.start = l0.start) (hle : l0.pos ≤ l.pos) (h2 : l.pos ≤ n) :
     Sat (pure (typ, false, l) : Option (ItemType × Bool × Lexer)) (NumPost n l0 false) := by
   apply Sat.ret
@@ -305,7 +307,7 @@ theorem lexNumber_ok {n : Int} {l : Lexer} (hg : Good n l) :
   · apply Sat.bind
     apply sliceOf_sat (by lx) (by lx) (by lx)
     intro _ _
-    first | exact errorf_sat | exact errorfAt_sat
+    first | exact errorf_sat (by lx) | exact errorfAt_sat (by lx)
   · rename_i hok
     have hok' : ok = true := by simpa using hok
     have : l.pos < l1.pos := by
@@ -319,8 +321,8 @@ theorem lexNumber_ok {n : Int} {l : Lexer} (hg : Good n l) :
 /-! ### lexHeaderParam -/
 
 theorem headerTypeLoop_sat {n : Int} {Q : Int × Lexer × Int → Prop} (l0 : Lexer) : ∀ (k : Nat) (l : Lexer) (lns : Int),
-    l.rem = k → l.len = n → 0 ≤ l.pos → l.pos ≤ n → l0.pos ≤ lns → lns ≤ l.pos →
-    (∀ ch l' lns', l'.len = n → l'.start = l.start → l0.pos ≤ lns' → lns' ≤ l'.pos → l'.pos ≤ n → Q (ch, l', lns')) →
+    l.rem = k → (l.len = n ∧ (l.mp : Int) ≤ n ∧ 0 ≤ l.tagStart ∧ l.tagStart ≤ n) → 0 ≤ l.pos → l.pos ≤ n → l0.pos ≤ lns → lns ≤ l.pos →
+    (∀ ch l' lns', (l'.len = n ∧ (l'.mp : Int) ≤ n ∧ 0 ≤ l'.tagStart ∧ l'.tagStart ≤ n) → l'.start = l.start → l0.pos ≤ lns' → lns' ≤ l'.pos → l'.pos ≤ n → Q (ch, l', lns')) →
     Sat (headerTypeLoop l lns) Q := by
   intro k
   induction k using Nat.strongRecOn with
@@ -351,7 +353,7 @@ theorem lexHeaderParam_ok {n : Int} {l : Lexer} (hg : Good n l) :
   apply hasPrefixAt_sat (by lx) (by lx)
   intro pre hpre
   split
-  · first | exact errorf_sat | exact errorfAt_sat
+  · first | exact errorf_sat (by lx) | exact errorfAt_sat (by lx)
   · rename_i hp
     have hp' : pre = true := by simpa using hp
     have hlen := hpre hp'
@@ -359,7 +361,7 @@ theorem lexHeaderParam_ok {n : Int} {l : Lexer} (hg : Good n l) :
     nx q l1 hl1 hs1 hf1
     apply Sat.bind
     have hem : Sat (if q = 63 then l1.emit .tHeaderOptionalParam else l1.backup.emit .tHeaderParam)
-        (fun l2 => l2.len = n ∧ l2.start = l2.pos ∧ l.pos + 5 ≤ l2.pos ∧ l2.pos ≤ n) := by
+        (fun l2 => (l2.len = n ∧ (l2.mp : Int) ≤ n ∧ 0 ≤ l2.tagStart ∧ l2.tagStart ≤ n) ∧ l2.start = l2.pos ∧ l.pos + 5 ≤ l2.pos ∧ l2.pos ≤ n) := by
       split
       · em l2 hl2 hp2 hs2 hw2
         exact ⟨by lx, by lx, by lx, by lx⟩
@@ -382,18 +384,20 @@ theorem lexHeaderParam_ok {n : Int} {l : Lexer} (hg : Good n l) :
     intro l6 hl6 hs6 hp6 hn6
     nx c l7 hl7 hs7 hf7
     split
-    · first | exact errorf_sat | exact errorfAt_sat
+    · first | exact errorf_sat (by lx) | exact errorfAt_sat (by lx)
     · apply Sat.bind
       em l8 hl8 hp8 hs8 hw8
       apply Sat.bind
       apply skipSpace_sat (by lx) (by lx)
       intro l9 hl9 hs9 hp9 hn9
       apply Sat.bind
-      apply headerTypeLoop_sat l9 l9.rem l9 l9.pos rfl (by lx) (by lx) (by lx) (by lx) (by lx)
+      have t1 : l8.len = n := by lx
+      have t2 : l9.len = n := by lx
+      apply headerTypeLoop_sat l9 l9.rem l9 l9.pos rfl ⟨by lx, by lx, by lx, by lx⟩ (by lx) (by lx) (by lx) (by lx)
       intro ch l10 lns hl10 hs10 hlo hhi hn10
       dsimp only
       split
-      · first | exact errorf_sat | exact errorfAt_sat
+      · first | exact errorf_sat (by lx) | exact errorfAt_sat (by lx)
       · apply Sat.bind
         em l11 hl11 hp11 hs11 hw11
         apply Sat.bind
@@ -414,7 +418,7 @@ theorem lexCss_ok {n : Int} {l : Lexer} (hg : Good n l) :
   unfold ScanFacts at hf2
   dsimp only
   split
-  · first | exact errorf_sat | exact errorfAt_sat
+  · first | exact errorf_sat (by lx) | exact errorfAt_sat (by lx)
   · rename_i hne
     simp only [eof] at hne
     apply Sat.bind
@@ -425,7 +429,7 @@ theorem lexCss_ok {n : Int} {l : Lexer} (hg : Good n l) :
     intro bad l5 hl5 hs5 hp5 hn5
     dsimp only
     split
-    · first | exact errorf_sat | exact errorfAt_sat
+    · first | exact errorf_sat (by lx) | exact errorfAt_sat (by lx)
     · apply Sat.bind
       em l6 hl6 hp6 hs6 hw6
       fin
@@ -442,7 +446,7 @@ theorem lexLiteral_ok {n : Int} {l : Lexer} (hg : Good n l) :
   unfold ScanFacts at hf1
   dsimp only
   split
-  · first | exact errorf_sat | exact errorfAt_sat
+  · first | exact errorf_sat (by lx) | exact errorfAt_sat (by lx)
   · rename_i hch
     have hch' : ch = 125 := by simpa using hch
     apply Sat.bind
@@ -450,7 +454,7 @@ theorem lexLiteral_ok {n : Int} {l : Lexer} (hg : Good n l) :
     intro bad l2 hl2 hs2 hp2 hn2
     dsimp only
     split
-    · first | exact errorf_sat | exact errorfAt_sat
+    · first | exact errorf_sat (by lx) | exact errorfAt_sat (by lx)
     · apply Sat.bind
       em l3 hl3 hp3 hs3 hw3
       apply Sat.bind
@@ -458,7 +462,7 @@ theorem lexLiteral_ok {n : Int} {l : Lexer} (hg : Good n l) :
       apply sliceOf_sat (by lx) (by lx) (by lx)
       intro rest hrest
       split
-      · first | exact errorf_sat | exact errorfAt_sat
+      · first | exact errorf_sat (by lx) | exact errorfAt_sat (by lx)
       · rename_i i hi
         have hle := stringsIndex_le _ _ _ hi
         have hlen : ((if l3.doubleDelim = true then closeLiteral2 else closeLiteral1).length : Int) =
@@ -471,7 +475,7 @@ theorem lexLiteral_ok {n : Int} {l : Lexer} (hg : Good n l) :
         have hd0 : 0 ≤ (i : Int) := Int.natCast_nonneg _
         apply Sat.bind
         have hem : Sat (if i > 0 then (l3.addPos ↑i).emit .tText else pure (l3.addPos ↑i))
-            (fun l4 => l4.len = n ∧ 0 ≤ l4.start ∧ l4.start ≤ l4.pos ∧ l4.pos = l3.pos + i) := by
+            (fun l4 => (l4.len = n ∧ (l4.mp : Int) ≤ n ∧ 0 ≤ l4.tagStart ∧ l4.tagStart ≤ n) ∧ 0 ≤ l4.start ∧ l4.start ≤ l4.pos ∧ l4.pos = l3.pos + i) := by
           split
           · em l4 hl4 hp4 hs4 hw4
             exact ⟨by lx, by lx, by lx, by lx⟩
